@@ -22,6 +22,7 @@ import (
 	"net/netip"
 	"os"
 	osexec "os/exec"
+	"sort"
 	"strconv"
 	"strings"
 	"time"
@@ -29,7 +30,10 @@ import (
 	"github.com/google/gopacket"
 	"github.com/scionproto/scion/pkg/addr"
 	"github.com/scionproto/scion/pkg/slayers"
+	"github.com/scionproto/scion/pkg/slayers/path"
 	"github.com/scionproto/scion/pkg/slayers/path/empty"
+	"github.com/scionproto/scion/pkg/slayers/path/onehop"
+	"golang.org/x/sys/unix"
 
 	"example.com/scion-time/core/server"
 	"example.com/scion-time/core/timebase"
@@ -82,7 +86,25 @@ func childMain() {
 	// the listener goroutines enable timestamping on their sockets first thing
 	time.Sleep(150 * time.Millisecond)
 	fmt.Println("ready")
-	io.Copy(io.Discard, os.Stdin)
+	// "snap": one line with the whole timestamp store (hook VerifC06Snapshot, taken under tssMu)
+	in := bufio.NewScanner(os.Stdin)
+	for in.Scan() {
+		if in.Text() != "snap" {
+			continue
+		}
+		var sb strings.Builder
+		sb.WriteString("snap")
+		for _, it := range server.VerifC06Snapshot().Items {
+			sb.WriteString(" " + it.Key + "=")
+			for i, pr := range it.Pairs {
+				if i > 0 {
+					sb.WriteByte(';')
+				}
+				fmt.Fprintf(&sb, "%d:%d:%d:%d", pr.Rx.Seconds, pr.Rx.Fraction, pr.Tx.Seconds, pr.Tx.Fraction)
+			}
+		}
+		fmt.Println(sb.String())
+	}
 	os.Exit(0)
 }
 
@@ -100,6 +122,50 @@ type child struct {
 	stdin io.WriteCloser
 	done  chan struct{}
 	errb  *strings.Builder
+	lines chan string // stdout lines after "ready" (answers to "snap")
+}
+
+type recPair struct{ rx, tx ntp.Time64 }
+
+// snapshot asks the listener process for its timestamp store: client key -> pairs on record
+func (c *child) snapshot() (map[string][]recPair, error) {
+	for len(c.lines) > 0 {
+		<-c.lines
+	}
+	if _, err := io.WriteString(c.stdin, "snap\n"); err != nil {
+		return nil, err
+	}
+	select {
+	case l := <-c.lines:
+		f := strings.Fields(l)
+		if len(f) == 0 || f[0] != "snap" {
+			return nil, fmt.Errorf("unexpected answer %q", l)
+		}
+		m := map[string][]recPair{}
+		for _, t := range f[1:] {
+			i := strings.LastIndexByte(t, '=')
+			if i < 0 {
+				return nil, fmt.Errorf("unexpected item %q", t)
+			}
+			key := t[:i]
+			m[key] = []recPair{}
+			if t[i+1:] == "" {
+				continue
+			}
+			for _, ps := range strings.Split(t[i+1:], ";") {
+				var a, b, cc, d uint32
+				if _, err := fmt.Sscanf(ps, "%d:%d:%d:%d", &a, &b, &cc, &d); err != nil {
+					return nil, fmt.Errorf("unexpected pair %q", ps)
+				}
+				m[key] = append(m[key], recPair{ntp.Time64{Seconds: a, Fraction: b}, ntp.Time64{Seconds: cc, Fraction: d}})
+			}
+		}
+		return m, nil
+	case <-c.done:
+		return nil, fmt.Errorf("listener child has exited")
+	case <-time.After(5 * time.Second):
+		return nil, fmt.Errorf("no answer to snapshot request")
+	}
 }
 
 var children = map[childCfg]*child{}
@@ -123,7 +189,7 @@ func startChild(cfg childCfg) (*child, error) {
 			zone = "lo"
 		}
 		cmd.Env = append(env, "C06TX_CHILD=1", "C06TX_KIND="+cfg.kind, "C06TX_ZONE="+zone, "C06TX_IP="+cfg.ip())
-		ch := &child{cmd: cmd, done: make(chan struct{}), errb: &strings.Builder{}}
+		ch := &child{cmd: cmd, done: make(chan struct{}), errb: &strings.Builder{}, lines: make(chan string, 16)}
 		ch.stdin, _ = cmd.StdinPipe()
 		out, _ := cmd.StdoutPipe()
 		if err := cmd.Start(); err != nil {
@@ -132,6 +198,7 @@ func startChild(cfg childCfg) (*child, error) {
 		ready := make(chan bool, 1)
 		go func() {
 			sc := bufio.NewScanner(out)
+			sc.Buffer(make([]byte, 1<<20), 1<<26)
 			ok := false
 			for sc.Scan() {
 				if sc.Text() == "ready" {
@@ -140,6 +207,12 @@ func startChild(cfg childCfg) (*child, error) {
 				}
 			}
 			ready <- ok
+			for ok && sc.Scan() {
+				select {
+				case ch.lines <- sc.Text():
+				default:
+				}
+			}
 			io.Copy(io.Discard, out)
 		}()
 		go func() { cmd.Wait(); close(ch.done) }()
@@ -200,6 +273,8 @@ func restartChild(cfg childCfg) {
 		c.kill()
 		delete(children, cfg)
 	}
+	delete(seenRx, cfg)
+	delete(tainted, cfg)
 	// new sockets too: a fresh listener, fresh 4-tuples
 	for k, s := range srcSocks {
 		if k.cfg == cfg {
@@ -283,6 +358,27 @@ func srcSock(cfg childCfg, src, ident int) (*net.UDPConn, error) {
 	return c, nil
 }
 
+// sendFromPort0 sends data as a UDP datagram from (src, port 0) to dst through a raw socket: a
+// datagram the listener receives like any other and cannot answer (sendmsg to port 0: EINVAL).
+func sendFromPort0(src net.IP, dst *net.UDPAddr, data []byte) error {
+	fd, err := unix.Socket(unix.AF_INET, unix.SOCK_RAW, unix.IPPROTO_UDP)
+	if err != nil {
+		return err
+	}
+	defer unix.Close(fd)
+	var sa, da unix.SockaddrInet4
+	copy(sa.Addr[:], src.To4())
+	copy(da.Addr[:], dst.IP.To4())
+	if err := unix.Bind(fd, &sa); err != nil {
+		return err
+	}
+	b := make([]byte, 8+len(data))
+	b[2], b[3] = byte(dst.Port>>8), byte(dst.Port)
+	b[4], b[5] = byte(len(b)>>8), byte(len(b))
+	copy(b[8:], data) // checksum 0: none (IPv4)
+	return unix.Sendto(fd, b, 0, &da)
+}
+
 func drain(c *net.UDPConn) {
 	buf := make([]byte, 4096)
 	for {
@@ -313,6 +409,64 @@ func scionHdr(cfg childCfg, ident int, next slayers.L4ProtocolType, dst netip.Ad
 	l.PathType = empty.PathType
 	l.NextHdr = next
 	return &l
+}
+
+// irreversible: a one-hop path whose second hop field is still empty (what a packet looks like
+// before the neighbouring border router has filled it in): `Path.Reverse()` fails on it
+func irreversible(l *slayers.SCION) {
+	l.Path = &onehop.Path{
+		Info:     path.InfoField{ConsDir: true, SegID: 0x1234, Timestamp: uint32(time.Now().Unix())},
+		FirstHop: path.HopField{ExpTime: 63, ConsIngress: 0, ConsEgress: 7, Mac: [path.MacLen]byte{1, 2, 3, 4, 5, 6}},
+	}
+	l.PathType = onehop.PathType
+}
+
+func scionUDPIrreversible(cfg childCfg, ident, sport, dport int, dst netip.Addr, pld []byte) []byte {
+	sl := scionHdr(cfg, ident, slayers.L4UDP, dst)
+	irreversible(sl)
+	u := &slayers.UDP{SrcPort: uint16(sport), DstPort: uint16(dport)}
+	u.SetNetworkLayerForChecksum(sl)
+	b := gopacket.NewSerializeBuffer()
+	if err := gopacket.SerializeLayers(b, serOpts, sl, u, gopacket.Payload(pld)); err != nil {
+		panic(err)
+	}
+	return b.Bytes()
+}
+
+// clientKey: the identity under which the listener keeps the exchanges of a harness client
+func clientKey(cfg childCfg, ident int) string {
+	if cfg.kind == "scion" {
+		return fmt.Sprintf("%s,10.0.0.%d", cliIA, 1+ident)
+	}
+	return fmt.Sprintf("127.0.21.%d", 10+ident)
+}
+
+// every receive timestamp a reply of this listener process has carried to us, per client key
+var seenRx = map[childCfg]map[string]map[ntp.Time64]bool{}
+
+// a listener whose replies we may have missed (unanswered event): no store oracle until restarted
+var tainted = map[childCfg]bool{}
+
+func noteRx(cfg childCfg, key string, rx ntp.Time64) {
+	if seenRx[cfg] == nil {
+		seenRx[cfg] = map[string]map[ntp.Time64]bool{}
+	}
+	if seenRx[cfg][key] == nil {
+		seenRx[cfg][key] = map[ntp.Time64]bool{}
+	}
+	seenRx[cfg][key][rx] = true
+}
+
+// unreplied: what is on record for the client without a reply ever having carried its receive
+// timestamp to us
+func unreplied(cfg childCfg, key string, snap map[string][]recPair) []recPair {
+	var r []recPair
+	for _, p := range snap[key] {
+		if !seenRx[cfg][key][p.rx] {
+			r = append(r, p)
+		}
+	}
+	return r
 }
 
 var serOpts = gopacket.SerializeOptions{ComputeChecksums: true, FixLengths: true}
@@ -396,6 +550,7 @@ type evObs struct {
 	req      ntp.Packet
 	resp     ntp.Packet
 	answered bool
+	phantom  *recPair // event r: the exchange found on record although nothing was sent
 }
 
 type histObs struct {
@@ -407,6 +562,7 @@ type histObs struct {
 	badWhy   []string
 	sandbox  string
 	qdiscErr string
+	rec      string // per event: 1 = its exchange is on record at the end of the history, 0 = not, - = no exchange
 }
 
 var last *histObs
@@ -450,7 +606,7 @@ func parseEvents(s string) ([]event, bool) {
 				}
 				e.ref = j
 			}
-		case 'e', 't', 'f', 'x':
+		case 'e', 't', 'f', 'x', 'r', 'w':
 			v, err := strconv.Atoi(rest)
 			if err != nil || v < 0 || strconv.Itoa(v) != rest {
 				return nil, false
@@ -529,14 +685,17 @@ func execHist(toks []string) string {
 		if e.src >= len(idents) {
 			return "bad-op"
 		}
-		if (e.letter == 'e' || e.letter == 't' || e.letter == 'f') && l != "scion" {
+		if (e.letter == 'e' || e.letter == 't' || e.letter == 'f' || e.letter == 'r') && l != "scion" {
+			return "bad-op"
+		}
+		if (e.letter == 'r' || e.letter == 'w') && e.src >= 8 {
 			return "bad-op"
 		}
 		if (e.letter == 'f' && e.src < 8) || (l == "ip" && e.src >= 8) {
 			return "bad-op" // packets are forwarded by the sockets on the end-host port only
 		}
 		if e.ref >= 0 {
-			if e.ref >= j || (evs[e.ref].letter != 'n' && evs[e.ref].letter != 'q') {
+			if e.ref >= j || (evs[e.ref].letter != 'n' && evs[e.ref].letter != 'q' && evs[e.ref].letter != 'r' && evs[e.ref].letter != 'w') {
 				return "bad-op"
 			}
 		}
@@ -551,10 +710,14 @@ func execHist(toks []string) string {
 		kinds[i] = o.kind
 	}
 	ks := string(kinds)
-	if reg == "late" && !strings.ContainsAny(ks, "u?") {
-		ks = "*"
+	rec := h.rec
+	if reg == "late" {
+		rec = "*"
+		if !strings.ContainsAny(ks, "u?") {
+			ks = "*"
+		}
 	}
-	return fmt.Sprintf("ok kinds=%s bad=%d", ks, h.bad)
+	return fmt.Sprintf("ok kinds=%s bad=%d rec=%s", ks, h.bad, rec)
 }
 
 func ntpReq(org, rx, tx ntp.Time64) (ntp.Packet, []byte) {
@@ -635,9 +798,35 @@ func runHist(cfg childCfg, idents []int, evs []event) *histObs {
 				if !r.answered {
 					org = ntp.Time64{Seconds: 1, Fraction: uint32(j)}
 				}
+				if (evs[e.ref].letter == 'r' || evs[e.ref].letter == 'w') && r.phantom != nil {
+					// nothing was sent for that exchange; its receive timestamp as the store has it
+					org = r.phantom.rx
+					if e.letter == 'n' {
+						rx = ntp.Time64FromTime(r.sendT.Add(time.Millisecond))
+						if rx == tx {
+							rx.Fraction ^= 1
+						}
+					}
+				}
 			}
 			var pld []byte
 			o.req, pld = ntpReq(org, rx, tx)
+			if cfg.kind == "ip" {
+				data = pld
+			} else {
+				data = scionUDP(cfg, ident, sport, scionPort, netip.MustParseAddr(cfg.ip()), pld)
+			}
+		case 'r':
+			tx := ntp.Time64FromTime(time.Now())
+			var pld []byte
+			o.req, pld = ntpReq(ntp.Time64{}, tx, tx)
+			data = scionUDPIrreversible(cfg, ident, sport, scionPort, netip.MustParseAddr(cfg.ip()), pld)
+		case 'w':
+			// a valid request that arrives from UDP source port 0 (raw socket): the listener handles and
+			// records it, the write of the reply to port 0 fails (EINVAL)
+			tx := ntp.Time64FromTime(time.Now())
+			var pld []byte
+			o.req, pld = ntpReq(ntp.Time64{}, tx, tx)
 			if cfg.kind == "ip" {
 				data = pld
 			} else {
@@ -655,11 +844,56 @@ func runHist(cfg childCfg, idents []int, evs []event) *histObs {
 			data = []byte{0x23, byte(j)} // too short for either listener
 		}
 		o.sendT = time.Now()
-		if _, err := sock.WriteToUDP(data, dst); err != nil {
+		if e.letter == 'w' {
+			if err := sendFromPort0(sock.LocalAddr().(*net.UDPAddr).IP, dst, data); err != nil {
+				h.sandbox = "raw write: " + err.Error()
+				return h
+			}
+		} else if _, err := sock.WriteToUDP(data, dst); err != nil {
 			h.sandbox = "write: " + err.Error()
 			return h
 		}
 		switch e.letter {
+		case 'r', 'w':
+			// nothing comes back (the path cannot be reversed); what does the store say?
+			sock.SetReadDeadline(time.Now().Add(3 * time.Millisecond))
+			if _, _, err := sock.ReadFromUDP(buf); err == nil {
+				o.kind = '?'
+				continue
+			}
+			o.kind = '-'
+			key := clientKey(cfg, ident)
+			for try := 0; try < 10 && o.phantom == nil && !tainted[cfg]; try++ {
+				snap, err := children[cfg].snapshot()
+				if err != nil {
+					h.sandbox = "snapshot: " + err.Error()
+					return h
+				}
+				if u := unreplied(cfg, key, snap); len(u) > 0 {
+					// still there a little later? (the listener may be in the middle of the iteration)
+					time.Sleep(60 * time.Millisecond)
+					snap2, err := children[cfg].snapshot()
+					if err != nil {
+						h.sandbox = "snapshot: " + err.Error()
+						return h
+					}
+					for _, p := range unreplied(cfg, key, snap2) {
+						if p == u[len(u)-1] {
+							q := p
+							o.phantom = &q
+						}
+					}
+				} else {
+					time.Sleep(5 * time.Millisecond)
+				}
+			}
+			if o.phantom != nil {
+				h.bad++
+				h.badWhy = append(h.badWhy, fmt.Sprintf("event %d: unsent-exchange-on-record: the request got no reply (%s), yet the store keeps an exchange for client %s with receive timestamp %v and transmit time %v (rx%+d ns): a transmit time of a reply that was never sent",
+					j, map[byte]string{'r': "irreversible path", 'w': "request from UDP source port 0: the write of the reply fails"}[e.letter], key, ntp.TimeFromTime64(o.phantom.rx, o.sendT), ntp.TimeFromTime64(o.phantom.tx, o.sendT),
+					ntp.TimeFromTime64(o.phantom.tx, o.sendT).Sub(ntp.TimeFromTime64(o.phantom.rx, o.sendT)).Nanoseconds()))
+			}
+			continue
 		case 'x':
 			// nothing comes back; let the listener get past it
 			sock.SetReadDeadline(time.Now().Add(3 * time.Millisecond))
@@ -722,6 +956,7 @@ func runHist(cfg childCfg, idents []int, evs []event) *histObs {
 			if err := ntp.DecodePacket(&resp, pld); err != nil {
 				continue
 			}
+			noteRx(cfg, clientKey(cfg, ident), resp.ReceiveTime)
 			switch {
 			case o.req.ReceiveTime != o.req.TransmitTime && resp.OriginTime == o.req.ReceiveTime:
 				o.kind = 'i'
@@ -744,7 +979,91 @@ func runHist(cfg childCfg, idents []int, evs []event) *histObs {
 			break
 		}
 	}
+	h.checkStore()
 	return h
+}
+
+// checkStore: the store at the end of the history. (a) `rec`: which exchanges of this history are
+// on record (compared with the model); (b) direct oracle: everything on record for a client of
+// this history carries the receive timestamp of a reply that was sent (and reached us).
+func (h *histObs) checkStore() {
+	cfg := h.cfg
+	for _, o := range h.obs {
+		if o.kind == 'u' || o.kind == '?' || o.kind == '.' {
+			tainted[cfg] = true
+		}
+	}
+	rec := make([]byte, len(h.evs))
+	for j := range rec {
+		rec[j] = '-'
+	}
+	h.rec = string(rec)
+	if tainted[cfg] || children[cfg] == nil {
+		return
+	}
+	// the last listener iteration may still be between its write and its updateTXTimestamp (a
+	// 1 ms poll, longer on a loaded machine): wait for the record our own bookkeeping expects;
+	// what is reported is what the store says in the end
+	_, wantRec := expectKindsRec(cfg.reg, h.idents, h.evs)
+	var snap map[string][]recPair
+	keys := map[string]bool{}
+	for try := 0; try < 40; try++ {
+		if try == 0 {
+			time.Sleep(3 * time.Millisecond)
+		} else {
+			time.Sleep(25 * time.Millisecond)
+		}
+		var err error
+		snap, err = children[cfg].snapshot()
+		if err != nil {
+			h.sandbox = "snapshot: " + err.Error()
+			return
+		}
+		for j, e := range h.evs {
+			if e.letter != 'n' && e.letter != 'q' && e.letter != 'r' && e.letter != 'w' {
+				continue
+			}
+			key := clientKey(cfg, h.idents[e.src])
+			keys[key] = true
+			rec[j] = '0'
+			o := &h.obs[j]
+			for _, p := range snap[key] {
+				if (o.answered && p.rx == o.resp.ReceiveTime) || (o.phantom != nil && p.rx == o.phantom.rx) {
+					rec[j] = '1'
+				}
+			}
+		}
+		if cfg.reg == "late" || string(rec) == wantRec || h.bad > 0 {
+			break
+		}
+	}
+	h.rec = string(rec)
+	var ks []string
+	for k := range keys {
+		ks = append(ks, k)
+	}
+	sort.Strings(ks)
+	for _, key := range ks {
+		u := unreplied(cfg, key, snap)
+		if len(u) == 0 {
+			continue
+		}
+		time.Sleep(100 * time.Millisecond)
+		snap2, err := children[cfg].snapshot()
+		if err != nil {
+			h.sandbox = "snapshot: " + err.Error()
+			return
+		}
+		for _, p := range unreplied(cfg, key, snap2) {
+			for _, q := range u {
+				if p == q {
+					h.bad++
+					h.badWhy = append(h.badWhy, fmt.Sprintf("end of history: exchange-on-record-without-reply: client %s has an exchange on record (receive timestamp %d.%d, transmit time %d.%d) whose receive timestamp no reply of this listener has ever carried",
+						key, p.rx.Seconds, p.rx.Fraction, p.tx.Seconds, p.tx.Fraction))
+				}
+			}
+		}
+	}
 }
 
 const slack = 3 * time.Nanosecond
@@ -776,6 +1095,12 @@ func (h *histObs) checkReply(j int) {
 	// datagram: taken after the software reading that reply carried, before it arrived here
 	e := h.evs[j]
 	r := &h.obs[e.ref]
+	if h.evs[e.ref].letter == 'r' || h.evs[e.ref].letter == 'w' {
+		tx := ntp.TimeFromTime64(o.resp.TransmitTime, o.arrT)
+		fail(fmt.Sprintf("unsent-exchange-served: interleaved reply quotes event %d, a request for which no reply was ever sent: served transmit time %v is the transmit time of no datagram",
+			e.ref, tx))
+		return
+	}
 	lo := ntp.TimeFromTime64(r.resp.ReferenceTime, r.arrT)
 	tx := ntp.TimeFromTime64(o.resp.TransmitTime, o.arrT)
 	if tx.Before(lo.Add(-slack)) || tx.After(r.arrT.Add(slack)) {
